@@ -17,8 +17,13 @@ carry their position as index; Bool form `tablesOkB`), the size assumption `file
 below 2^63 and its offset fits e_shoff), no address translation, section/segment fields fit the class
 (`FieldsFit`/`SegFit`, trivial in ELF64).  `exBuilt_domain`: an object made through the model's
 create/sectionsAdd/set_data/segmentsAdd/segAddSection (PT_LOAD over .text+.note, nested PT_NOTE, loose section)
-is in SaveDomain and its save succeeds.  Still missing: section NAMES through .shstrtab for the saved file as a
-whole (sectionsAdd_name is per call), compression.  Correspondence: harness/load.cpp (real API: create, setters,
+is in SaveDomain and its save succeeds.  COMPOSITION WITH THE LOADER (Props/Compose.lean, Lemmas/RoundTrip.lean): the decoder of `save_decode_fields` is
+replaced by the model's `load`: `Compose.reload_reports_saved` (+ `_noseg`, `_flat`; see families/c02.py) — loading
+the saved bytes succeeds and reports every header/section/segment field, the section NAMES (the string the saved
+name table holds at the name offset, `RoundTrip.nameIn`; hypothesis `SaveInput.names`: every name offset of the
+input points at a terminated string of its resident name table - what sections.add establishes, `sectionsAdd_name`)
+and the section data.  RoundTrip.imageOk_of_save / segInside_flat / savedSane_flat are the writer-side lemmas.
+Still missing: compression.  Correspondence: harness/load.cpp (real API: create, setters,
 sections.add, set_data, segments.add, add_section_index, save) vs Driver/Load.lean (Model/Writer.lean)
 — saved bytes compared in full.  Oracle: tools/elfspec.decode of the implementation's bytes vs the
 program's inputs.  Compression interface: not exercised (objects are constructed without one; with
@@ -59,7 +64,12 @@ THEOREMS = ["ElfioVerif.C03.encodeShdr_spec_bytes",
             "ElfioVerif.C03.save_segFit",
             "ElfioVerif.C03.save_decode_fields_of_save",
             "ElfioVerif.C03.save_decode_header_of_save",
-            "ElfioVerif.C03.exBuilt_domain"]
+            "ElfioVerif.C03.exBuilt_domain",
+            "ElfioVerif.RoundTrip.imageOk_of_save",
+            "ElfioVerif.RoundTrip.segInside_flat",
+            "ElfioVerif.Compose.reload_reports_saved_noseg",
+            "ElfioVerif.Compose.reload_reports_saved_flat"]
+EXTRA_IMPORTS = ["ElfioVerif.Props.Compose"]
 SITES = ["conv", "save_", "lsws", "lst_", "lseg", "wsd", "sec32_set", "sec64_set", "sec32_insert", "sec64_insert"]
 RULE = ("API construction programs from a random-model generator (0-8 sections of mixed types/flags/alignments/"
         "sizes incl. empty and no-bits, 0-4 segments incl. nested ones and a section-less PT_PHDR, explicit or "
